@@ -480,6 +480,18 @@ class FakeSelect:
         return ([by_fd_r[fd] for fd in self.k.order(by_fd_r)], [by_fd_w[fd] for fd in self.k.order(by_fd_w)], [])
 
 
+class SelectModuleProxy:
+    """Stands in for the `select` MODULE inside selectreactor.py (optional, see reactors.make_reactor(fake_select_module=True)):
+    the reactor's descriptor-probing pass after EBADF calls `select.select([x], [x], [x], 0)` through the module, and the real
+    call rejects the fake kernel's fd numbers (>= FD_SETSIZE) - every healthy fake socket would be taken for a bad descriptor."""
+
+    def __init__(self, kernel):
+        self.select = FakeSelect(kernel)
+
+    def __getattr__(self, name):
+        return getattr(_real_select_mod, name)
+
+
 class FakePoll:
     """Replacement for select.poll()."""
 
